@@ -26,6 +26,8 @@ DIMSETS = {
     "o2_r3n": [("o", "Origin", ["EU", "US"], str), ("r", "Region", ["EU", "US", "CN"], str)],  # one item set inside another (still different sets)
     "n3i_r2": [("n", "Offset", [-1, 0, 2], int), ("r", "Region", ["r1", "r2"], str)],  # negative integer items
     "a3i0": [("a", "Age", [0, 1, 2], int)],  # a 1-d array whose items are exactly the default row numbers 0..n-1
+    "m3u_r2": [("m", "Mixed", [1, "a", 2], None), ("r", "Region", ["r1", "r2"], str)],  # an untyped dimension whose items mix numbers and text
+    "y1i_r2": [("y", "Year", [2020], int), ("r", "Region", ["r1", "r2"], str)],  # a single-item dimension whose item is an integer
     "a3i0_e2": [("a", "Age", [0, 1, 2], int), ("e", "Element", ["", "Fe"], str)],  # labels that are falsy in Python
 }
 
